@@ -155,6 +155,27 @@ func run(c *rig.Ctx) {
 		s := emu.Scenario{ROM: p.ROM, Video: i%2 == 0, Audio: false, Frames: frames, Keys: keySchedule(r, frames)}
 		check(c, "overlapping-objects program", s, fmt.Sprintf("sprites:%d", i))
 	})
+	// (2b') a different program with the very same header (title, type, sizes, checksums) and
+	// length was loaded earlier in the process: the program under test must still behave as in
+	// a process of its own
+	c.Part("same-header", c.N(14, 84), func(i int64, r *rig.Rng) {
+		cart := []int{0x01, 0x03, 0x13, 0x1b, 0x05, 0x10, 0x19}[i%7]
+		a := prog.Generate(r, prog.Options{Hardware: true, Serial: true, MBCWrites: true, CartType: cart})
+		b := prog.Generate(r, prog.Options{Hardware: true, Serial: true, MBCWrites: true, Interrupts: i%2 == 0, CartType: cart})
+		copy(b.ROM[0x134:0x150], a.ROM[0x134:0x150])
+		if os.Getenv("C24_CHILD") != "1" {
+			sa := emu.Scenario{ROM: a.ROM, Frames: 2}
+			if ok, _ := emu.Screen(sa); ok {
+				pa := emu.TempROM(a.ROM, "c24h")
+				emu.Run(sa, pa)
+				os.Remove(pa)
+				c.Count("same_header_predecessors_run", 1)
+			}
+		}
+		frames := 3 + r.Intn(4)
+		s := emu.Scenario{ROM: b.ROM, Video: i%2 == 1, Frames: frames, Keys: keySchedule(r, frames)}
+		check(c, b.Describe()+" (after another image with the same header)", s, fmt.Sprintf("same-header:%d", i))
+	})
 	// (2c) battery-backed cartridge types whose programs read cartridge RAM before writing it
 	// (nothing of an earlier run may survive into a later one, in this process or another)
 	batt := []uint8{0x03, 0x06, 0x0f, 0x10, 0x13, 0x1b, 0x1e}
